@@ -115,6 +115,38 @@ def _fail_hook(ev, args):
         raise OSError(errno.ENOSPC, "No space left on device (asimap-verif failpoint)", ps)
 
 
+_STAT = {"suffix": None, "installed": False, "fired": 0, "orig": None}
+
+
+def arm_stat_fault(suffix):
+    """One-shot fault: the next os.stat() of a path ending in `suffix` fails
+    with ESTALE (a mail spool on a network file system).  os.stat raises no audit
+    event, so the standard library function itself is wrapped (harness side)."""
+    import errno
+
+    if not _STAT["installed"]:
+        orig = os.stat
+        _STAT["orig"] = orig
+
+        def stat(path, *a, **kw):
+            sfx = _STAT["suffix"]
+            if sfx is not None and isinstance(path, (str, bytes, os.PathLike)) and os.fsdecode(path).endswith(sfx):
+                _STAT["suffix"] = None
+                _STAT["fired"] += 1
+                raise OSError(errno.ESTALE, os.strerror(errno.ESTALE) + " (asimap-verif failpoint)", os.fsdecode(path))
+            return orig(path, *a, **kw)
+
+        os.stat = stat
+        _STAT["installed"] = True
+    _STAT["suffix"] = suffix
+
+
+def disarm_stat_fault():
+    fired = _STAT["suffix"] is None
+    _STAT["suffix"] = None
+    return fired
+
+
 def arm_failpoint(suffix):
     if not _FAIL["installed"]:
         sys.addaudithook(_fail_hook)
@@ -537,6 +569,20 @@ class Rig:
             MH(self.maildir / "inbox")
         self.server = await IMAPUserServer.new(self.maildir)
         await self.server.find_all_folders()
+        if getattr(self, "startup_scan", False):
+            # what the server's management task does first when the process starts (IMAPUserServer.run()): every folder
+            # recorded in the database is looked at once, whatever its mtime
+            self.server.initial_folder_scan = True
+            sfx = getattr(self, "startup_stat_fault", None)
+            if sfx:
+                arm_stat_fault(sfx)  # (armed for the scan only)
+            try:
+                await self.server.check_all_folders()
+            finally:
+                self.server.initial_folder_scan = False
+                if sfx:
+                    self.counts["startup_stat_fault_delivered" if disarm_stat_fault() else "startup_stat_fault_not_reached"] += 1
+            self.counts["startup_scans"] += 1
         if user_mgmt:
             self.server.asyncio_server = _StubAsyncioServer()
             self.server.management_task = asyncio.create_task(self.server.user_server_management_task())
